@@ -990,6 +990,7 @@ where
                         | SyntaxKind::RecordType
                         | SyntaxKind::ArrayType
                         | SyntaxKind::CodeType
+                        | SyntaxKind::UnionType
                 )
             } else {
                 false
